@@ -4,6 +4,7 @@ import Uhppote.Props.C04
 import Uhppote.Gen.Driver
 import Uhppote.Proofs.Buffers
 import Uhppote.Props.C02
+import Uhppote.Gen.Source
 /-! # C10 — the event listener delivers every valid event once, in order, and nothing else (partial)
 
 `Model.Events.listenTrace` is the handler of `uhppote.listen` followed by the status mapping of
@@ -108,5 +109,10 @@ theorem C10_event_is_protocol_decoding (L : Layout) (h : Gen.Messages.all.lookup
     part filled exactly when the event index is non-zero) -/
 theorem C10_status_mapping_regenerated (r : List Val) : Gen.Status.listenStatus r = statusResult r :=
   (C02.C02_status_regenerated r).2
+
+/-- one reader, one dispatcher: the regenerated inventory of `go` statements - `ut0311.Listen` starts the socket
+    reader and the shutdown watcher, `uhppote.Listen` the single dispatcher that calls the application; datagrams are
+    decoded by the reader before the next read (the regenerated order facts above), so arrival order is delivery order -/
+theorem C10_goroutines : Gen.Source.goStatements = ["uhppote/UT0311.go:ut0311.Broadcast: 1", "uhppote/UT0311.go:ut0311.Listen: 2", "uhppote/listen.go:uhppote.Listen: 1"] := by decide
 
 end Uhppote.Props.C10
